@@ -182,7 +182,7 @@ var c08Atoms = []string{"-", "\\", "\\-", "-\\", "", "a", "\xff", " ", "b", "\\\
 	"\xfe", "\xe9", "\xe8", "\xef\xbf\xbd", "\xc3", "\xc3\xa9", "\x00", "A", "\xe4\xb8", "\xe4\xb8\xad"}
 
 func TestC08(t *testing.T) {
-	st := vstat.New("C08", "pairs of label tuples (arity 1-4) over an adversarial alphabet {'-', '\\', '\\-', '-\\', '', 'a', 0xff, ' ', ...}, drawn independently and by structure-aware mutation of one tuple (move a character across an element boundary, swap '\\-' and '-', split/merge elements); plus exhaustive small scope; non-trivial = the tuples differ and both contain a separator or escape character; distinct by the pair")
+	st := vstat.New("C08", "pairs of label tuples (arity 1-4) over an adversarial alphabet {'-', '\\', '\\-', '-\\', '', 'a', 0xff, ' ', ...}, drawn independently and by structure-aware mutation of one tuple (move a character across an element boundary, swap '\\-' and '-', split/merge elements); plus exhaustive small scope; plus 200 000 distinct ordinary-looking tuples in one metric, each with a value of its own; non-trivial = the tuples differ and both contain a separator or escape character; distinct by the pair")
 	st.Assumptions = []string{"metric API used as the VM uses it: GetDatum, FindLabelValueOrNil, ExpireDatum, RemoveDatum, EmitLabelSets"}
 	st.Run(t, c08RunRaw, func() {
 		c08Exhaustive(t, st)
@@ -190,6 +190,10 @@ func TestC08(t *testing.T) {
 			return
 		}
 		c08Concurrent(t, st)
+		if t.Failed() {
+			return
+		}
+		c08Bulk(t, st)
 		if t.Failed() {
 			return
 		}
@@ -431,4 +435,77 @@ func c08Concurrent(t *testing.T, st *vstat.Stats) {
 		}
 	}
 	st.ClassN("concurrent-first-touch-rounds", rounds)
+}
+
+// c08Bulk: 200 000 distinct ordinary-looking tuples in ONE metric, each given
+// its own value. A key that keeps less than the whole tuple (a truncated or
+// hashed key) makes two of them share a datum long before that many: with 32
+// bits the chance of no clash among 200 000 is below 1 %.
+func c08Bulk(t *testing.T, st *vstat.Stats) {
+	shard, _ := vstat.Shard()
+	if shard != 0 {
+		return
+	}
+	const n = 200000
+	const digits = "abcdefghijklmnopqrstuvwxyz0123456789"
+	tuple := func(i int) []string {
+		// splitmix64 of the index: a fixed, reproducible sequence
+		z := uint64(i)*0x9e3779b97f4a7c15 + 0x1234567
+		z = (z ^ (z >> 30)) * 0xbf58476d1ce4e5b9
+		z = (z ^ (z >> 27)) * 0x94d049bb133111eb
+		z ^= z >> 31
+		var b [8]byte
+		for k := range b {
+			b[k] = digits[z%36]
+			z /= 36
+		}
+		return []string{[]string{"GET", "POST", "PUT", "HEAD"}[i%4], fmt.Sprintf("/item/%s%d", b[:], i%7)}
+	}
+	m := metrics.NewMetric("bulk", "prog", metrics.Counter, metrics.Int, "method", "path")
+	seen := make(map[string]int, n)
+	for i := 0; i < n; i++ {
+		tp := tuple(i)
+		key := tp[0] + "\x00" + tp[1]
+		if _, dup := seen[key]; dup {
+			continue // the sequence repeated a tuple (not expected): skip it
+		}
+		seen[key] = i
+		d, err := m.GetDatum(tp...)
+		if err != nil {
+			st.Violate(t, vstat.Failf("harness", "GetDatum: %v", err), nil, "bulk")
+			return
+		}
+		datum.SetInt(d, int64(i), time.Unix(1, 0))
+	}
+	st.Evals(len(seen))
+	st.Class("bulk-tuples-in-one-metric")
+	report := func(i, j int, what string) {
+		c := c08Case{}
+		for _, e := range tuple(i) {
+			c.T1 = append(c.T1, vstat.Q(e))
+		}
+		for _, e := range tuple(j) {
+			c.T2 = append(c.T2, vstat.Q(e))
+		}
+		f := runC08(c)
+		if f == nil {
+			f = vstat.Failf("distinct-tuples-share-a-datum:bulk", "%s (not reproduced with the two tuples alone)", what)
+		}
+		st.Violate(t, f, c, "bulk")
+	}
+	for key, i := range seen {
+		_ = key
+		lv := m.FindLabelValueOrNil(tuple(i))
+		if lv == nil {
+			report(i, i, fmt.Sprintf("tuple %q was created and cannot be found", tuple(i)))
+			return
+		}
+		if j := int(datum.GetInt(lv.Value)); j != i {
+			report(i, j, fmt.Sprintf("tuples %q and %q name the same datum", tuple(i), tuple(j)))
+			return
+		}
+	}
+	if len(m.LabelValues) != len(seen) {
+		st.Violate(t, vstat.Failf("distinct-tuples-share-a-datum:bulk", "%d distinct tuples were created, the metric lists %d", len(seen), len(m.LabelValues)), nil, "bulk")
+	}
 }
